@@ -217,7 +217,12 @@ def line_diff(a, b, keys):
             continue  # model-only coverage annotations
         if keys is not None and not k.startswith("_") and k not in keys:
             continue
-        if da.get(k) != db.get(k):
+        va, vb = da.get(k), db.get(k)
+        if va != vb:
+            # the model may admit several values where the code's choice is arbitrary (e.g. Go map iteration order):
+            # "(x|y|z)" on the model side matches any of its alternatives
+            if vb is not None and vb.startswith("(") and vb.endswith(")") and va in vb[1:-1].split("|"):
+                continue
             diff.append(k)
     return sorted(diff)
 
